@@ -42,6 +42,7 @@ pub fn run(ctx: &mut Ctx) {
             let spec = *rng.pick(&ParamSpec::PRESETS);
             let iters = *rng.pick(budgets);
             let threads = if long { 1 } else { *rng.pick(&[1usize, 1, 1, 4, 16]) };
+            let threads = crate::props::c06::frontier_threads(rng, &tree, SolveMethod::Full, threads);
             let cfg = Cfg { method: SolveMethod::Full, iters, max_reg: 0.0, threads, params: spec };
             ctx.mark(idx, &cfg.describe());
             let detail = || json!({"game": tree.to_json(), "cfg": cfg.describe(), "desc": desc, "D": d, "N": nn, "A": a});
